@@ -137,6 +137,8 @@ func runC10(r *oblig.Report) {
 	e1variants.Siblings(c.P, r, "R1.4")
 	e2own.ArgPurity(c.P, r, "R2.1", build, fs)
 	e5path.NormalisedBeforeCompare(c.P, r, "C10.5", c.Entry("graph.WeightedAuthorizationModelGraph.UpsertEdge"), "condition")
+	r.Rule("C10.6", "path-enumeration", "an existing edge is matched only after its kind and its tupleset relation were compared with the parameters", 2)
+	e5path.EdgeIdentity(c.P, r, "C10.6", []string{"graph.WeightedAuthorizationModelGraph.UpsertEdge", "graph.WeightedAuthorizationModelGraph.HasEdge"})
 	r.Rule("C10.4", "instance-table", "operator nodes get a unique label derived from a random id made in the same invocation", 1)
 	a := &e3order.Analyzer{P: c.P, R: r}
 	a.FreshLabels("C10.4", fs, []string{"GetOrAddNode", "AddNode"}, "uniqueLabel", "nodeType", 2)
@@ -184,6 +186,8 @@ func runC17(r *oblig.Report) {
 	a.FreshLabels("C17.4", fs, []string{"getOrAddNode"}, "uniqueLabel", "nodeType", 2)
 	r.Rule("R1.6", "instance-table", "translation loops over operands and restrictions run to completion", 4)
 	e5path.CompleteIteration(c.P, r, "R1.6", []string{"graph.parseModel", "graph.checkRewrite", "graph.parseThis", "graph.parseTupleToUserset"})
+	r.Rule("C10.6", "path-enumeration", "an existing edge is matched only after its kind and its tupleset relation were compared with the parameters", 2)
+	e5path.EdgeIdentity(c.P, r, "C10.6", []string{"graph.AuthorizationModelGraphBuilder.upsertEdge", "graph.AuthorizationModelGraphBuilder.hasEdge"})
 	r.Rule("C17.5", "instance-table", "PathExists answers with the library reachability query on the looked-up nodes in argument order", 1)
 	e5path.DelegatesTo(c.P, r, "C17.5", c.Entry("graph.AuthorizationModelGraph.PathExists"), "gonum.org/v1/gonum/graph/topo", "PathExistsIn", "GetNodeByLabel")
 	r.Rule("R2.1", "instance-table", "no plain-graph entry point writes memory reachable from its arguments", len(entries))
